@@ -188,7 +188,14 @@ def oracle(ctx):
         except Exception:  # noqa
             pass
         oe = o.orbit_elements
-        period_min = float(oe.period)
+        try:
+            period_min = float(oe.period)
+            float(oe.perigee), float(oe.semi_major_axis)
+        except Exception as ex:  # noqa  the summary must still be the numbers it was (minutes, km, earth radii)
+            ctx.violation("summary_not_numeric", {"line1": l1, "line2": l2, "after": "get_orbit_number, get_lonlatalt, get_last_an_time"},
+                          "%s: %s (period=%r)" % (type(ex).__name__, ex, oe.period), "period in minutes, perigee in km, semi-major axis as numbers",
+                          site="OrbitElements")
+            continue
         step = 10.0
         nstep = int(2.2 * period_min * 60 / step)
         ts = o.tle.epoch + (np.arange(nstep) * step * 1e6).astype("int64").astype("timedelta64[us]")
@@ -266,5 +273,12 @@ def replay(ctx, case):
         bad = bad or abs((speed ** 2 / 2 - MU / r) - (-MU / (2 * a_km))) / abs(MU / (2 * a_km)) > 0.01
         print("violated" if bad else "holds")
         return 1 if bad else 0
+    if inp.get("after"):
+        o.get_orbit_number(o.tle.epoch + np.timedelta64(3600, "s"))
+        try:
+            float(o.orbit_elements.period)
+        except Exception as ex:  # noqa
+            print("summary period is not a number any more:", ex)
+            return 1
     print("period", o.orbit_elements.period, "perigee", o.orbit_elements.perigee, "sma km", o.orbit_elements.semi_major_axis * XKMPER)
     return 0
